@@ -151,6 +151,9 @@ def vrl(e, stmt=False):
     if k == "assigninf":
         s = "%s, %s = %s" % (vrl_target(e[1]), vrl_target(e[2]), vrl(e[3], stmt=True))
         return s if stmt else "(" + s + ")"
+    if k == "mergeassign":
+        s = "%s |= %s" % (vrl_target(e[1]), vrl(e[2], stmt=True))
+        return s if stmt else "(" + s + ")"
     if k == "abort":
         s = "abort" if e[1] is None else "abort " + vrl(e[1])
         return s if stmt else "{ " + s + " }"
@@ -228,6 +231,11 @@ def coq_expr(e):
         return "(EAssign %s %s)" % (coq_target(e[1]), coq_expr(e[2]))
     if k == "assigninf":
         return "(EAssignInf %s %s %s %s)" % (coq_target(e[1]), coq_target(e[2]), coq_expr(e[3]), coq_value(e[4]))
+    if k == "mergeassign":
+        # Compiler::rewrite_to_merge: `t |= e` is `t = (t | e)` with the target re-read as a query
+        t = e[1]
+        q = ("var", t[1]) if (t[0] == "tvar" and not t[2]) else (("qvar", t[1], t[2]) if t[0] == "tvar" else ("qext", t[1], t[2]))
+        return "(EAssign %s (EOp OMerge %s %s))" % (coq_target(t), coq_expr(q), coq_expr(e[2]))
     if k == "abort":
         return "(EAbort %s)" % ("None" if e[1] is None else "(Some %s)" % coq_expr(e[1]))
     if k == "return":
@@ -478,10 +486,15 @@ class Gen:
             return ("if", [self.boolean(d)], [("return", self.inf(d - 1))], None)
         if c < 0.82:
             return ("if", [self.boolean(d)], [("abort", ("lit", js(r.choice(["m", "stop", ""]))) if r.random() < 0.7 else None)], None)
-        if c < 0.88:
+        if c < 0.86:
             m = self.marker
             self.marker += 1
             return ("assign", ("text", "event", [f("mk%d" % m)]), ("lit", True))
+        if c < 0.89:
+            # `|=`: make the target an object first so that the merge is typed infallible
+            t = ("tvar", r.choice(VARS), []) if r.random() < 0.5 else ("text", "event", [f(r.choice(["w1", "w2"]))])
+            obj = lambda: ("obj", [(k.encode().hex(), self.inf(max(d - 1, 0))) for k in r.sample(["p", "q", "r"], r.randint(0, 2))])
+            return ("block", [("assign", t, obj()), ("mergeassign", t, obj())])
         return self.inf(d)
 
     def stmts(self, d, n, last):
